@@ -35,6 +35,8 @@ def wide_component(rng, name):
         vp = VaporPressureConstants(a=rng.uniform(4.0, 10.0), b=rng.uniform(-3000.0, -800.0), c=rng.uniform(-120.0, 20.0))
         if rng.random() < 0.15:         # handbook-style sets with a large positive third constant
             vp = VaporPressureConstants(a=vp.a, b=vp.b, c=rng.uniform(150.0, 260.0))
+        elif rng.random() < 0.12:       # ... or a pole inside or above the temperature range: the set is evaluated BELOW its pole as well
+            vp = VaporPressureConstants(a=vp.a - 10.0, b=vp.b, c=rng.uniform(-600.0, -200.0))
     if rng.random() < 0.12:             # "every constant set": also a positive second constant (pressure falling with temperature)
         vp = VaporPressureConstants(a=vp.a - 8.0, b=-vp.b, c=vp.c, type=vp.type)
     sc = rng.choice([1.0, 1.0, 10.0, 0.01])
@@ -75,6 +77,12 @@ def record(tw, rng, n, stats):
         else:
             continue
         h = 1e-4 * T
+        if rng.random() < 0.15:
+            # a temperature given as a whole number of kelvin (a Python int or a numpy integer)
+            import numpy
+            T = int(round(T)) if rng.random() < 0.5 else numpy.int64(round(T))
+            if v.type == "antoine" and abs(T + v.c) < 40.0:
+                continue
         try:
             tw.add([{"ev": "Vap", "name": c.name, "vp": vp_desc(c), "T": F(T), "h": F(h),
                      "p": F(c.get_vapor_pressure(T)), "pPlus": F(c.get_vapor_pressure(T + h)),
